@@ -6,6 +6,7 @@ pub mod spec;
 /// generated constructor dispatcher (kx/kunits.py)
 pub mod gen_ctor;
 pub mod samplers;
+pub mod samplers2;
 
 /// RNG that hands out the scripted words first and a seeded PRNG stream afterwards
 /// (a constant tail would make rejection samplers spin forever).
